@@ -153,6 +153,35 @@ func TestC20(t *testing.T) {
 				return
 			}
 		}
+		if how == "api" && r.IntN(3) == 0 {
+			// a message assembled by an application may hold the same value at two
+			// places: one *AVP added twice, or one *GroupedAVP as the data of two AVPs.
+			// The document has both occurrences (so has its wire image), and so has
+			// the reference walk over Message.AVP.
+			var groups []*diam.AVP
+			var collect func(avps []*diam.AVP)
+			collect = func(avps []*diam.AVP) {
+				for _, a := range avps {
+					if g, ok := a.Data.(*diam.GroupedAVP); ok {
+						groups = append(groups, a)
+						collect(g.AVP)
+					}
+				}
+			}
+			collect(dm.AVP)
+			if len(groups) > 0 {
+				a := groups[r.IntN(len(groups))]
+				how = "api-shared-value"
+				switch r.IntN(3) {
+				case 0:
+					dm.AddAVP(a)
+				case 1:
+					dm.AddAVP(diam.NewAVP(a.Code+1, a.Flags, a.VendorID, a.Data))
+				case 2:
+					dm.InsertAVP(diam.NewAVP(778000, 0x40, 0, &diam.GroupedAVP{AVP: []*diam.AVP{a}}))
+				}
+			}
+		}
 		app := m.H.App
 		// searching must not modify the message: flatten the tree (pointers) before
 		var flatBefore []*diam.AVP
